@@ -423,6 +423,9 @@ func (s *Store[K, V]) setShardWithoutLock(shard *Shard[K, V], hash uint64, key K
 		exist.value = value
 		old := exist.weight.Swap(cost)
 		result.oldCost = old
+		if !nvmClean {
+			exist.dirty.Store(true)
+		}
 		s.invalidateSecondary(key, nvmClean)
 		return result
 	}
@@ -458,6 +461,7 @@ func (s *Store[K, V]) setShardWithoutLock(shard *Shard[K, V], hash uint64, key K
 	entry.expire.Store(expire)
 	entry.weight.Store(cost)
 	entry.policyWeight = 0
+	entry.dirty.Store(false)
 	shard.set(entry.key, entry)
 	s.invalidateSecondary(key, nvmClean)
 	result.entry = entry
@@ -614,7 +618,7 @@ func (s *Store[K, V]) removeEntry(entry *Entry[K, V], reason RemoveReason) {
 
 	switch reason {
 	case EVICTED, EXPIRED:
-		if reason == EVICTED && !entry.flag.IsFromNVM() && s.secondaryCache != nil {
+		if reason == EVICTED && (!entry.flag.IsFromNVM() || entry.dirty.Load()) && s.secondaryCache != nil {
 			var rn float32 = 1
 			if s.probability < 1 {
 				rn = s.rg.Float32()
